@@ -28,7 +28,7 @@ def make_replay(pid, v, tier):
         rec["failing_input"] = v["counterexample"]
         found = True
     # native probe search on the real compiled code (replay aid; not the decision procedure)
-    fn = v["obligation"].split("::")[-1].split(" ")[0]
+    fn = v["obligation"].split(" [")[0].split("::")[-1].split(" ")[0]
     if not found and os.path.exists(REPLAY_BIN):
         try:
             subprocess.run(["cargo", "build", "--release", "--offline"], cwd=os.path.join(ROOT, "replay"), capture_output=True, timeout=900,
